@@ -32,6 +32,7 @@ pub const META_KEYS: &[&str] = &[
 pub const META_VALUES: &[&str] = &["value", "a longer value", "https://example.org/a?b=c", "1", "yes: no", "Ünïcode ✓", "it's \"quoted\"", "a, b, c", "3.5 stars"];
 pub const SECTION_NAMES: &[&str] = &["Dough", "Filling", "To serve", "Step 2 prep", "Crème", "sauce & sides"];
 pub const STEP_LINES: &[&str] = &[">> note: remember the oven", ">> [optional: add more of it", ">> see note [a]: later", ">> wine pairing: red", ">> my key : spaced out", ">>x:y"];
+pub const TEXT_MODE_COMPONENTS: &[&str] = &["@salt{1%tsp}(flaky, if possible)", "#pan{}(big)", "@olive oil{2%tbsp}", "@&salt{}", "@water{1/2%l}(cold)", "#bowl", "@flour{=200%g}", "#&pan(hot)"];
 pub const DEC_FRACS: &[&str] = &["5", "25", "05", "75", "125", "0", "50"];
 
 /// Words usable as a single-word component name (one word/int token run, no punctuation)
@@ -757,7 +758,10 @@ pub fn build_with(raw: &RawRecipe, strict: bool, bare_timers: bool) -> RecipeM {
                         RawTok::Punct(i) => TokM::Punct(PUNCT[*i as usize % PUNCT.len()].to_string()),
                         RawTok::Escaped(i) => TokM::Escaped(ESCAPED[*i as usize % ESCAPED.len()]),
                         RawTok::Num(i) => TokM::Num(TEXT_NUMS[*i as usize % TEXT_NUMS.len()].to_string()),
-                        RawTok::Comp(_) | RawTok::Timer(_) if mode == ModeM::Text => TokM::Word("then".into()),
+                        RawTok::Comp(_) | RawTok::Timer(_) if mode == ModeM::Text && strict => TokM::Word("then".into()),
+                        // in text mode a component is ignored and kept as written (a warning, not an error)
+                        RawTok::Comp(c) if mode == ModeM::Text => TokM::Raw(TEXT_MODE_COMPONENTS[(c.name[0] as usize + c.mods as usize) % TEXT_MODE_COMPONENTS.len()].to_string()),
+                        RawTok::Timer(t) if mode == ModeM::Text => TokM::Raw(["~rest{5%min}", "~{10%minutes}", "~proof{1-2%hours}"][t.unit as usize % 3].to_string()),
                         RawTok::Comp(c) => TokM::Comp(b.comp(c, strict)),
                         RawTok::Timer(t) => TokM::Timer(b.timer(t)),
                         RawTok::Inline(n, u, g) => TokM::Inline {
